@@ -5,5 +5,6 @@ cd /verif
 . scripts/env.sh
 case "$1" in
   vmc) go build -tags verif -o bin/vmc ./cmd/vmc ;;
+  vcoop) python3 tools/overlaygen.py coop >/dev/null && go build -tags verif -overlay .cache/overlay/coop/overlay.json -o bin/vcoop ./cmd/vcoop ;;
   *) echo "unknown flavour $1" >&2; exit 2 ;;
 esac
